@@ -36,7 +36,7 @@ ASSUMPTIONS = ['glue is its own reference for the full array (view consistency i
                'generator guards exclude the (attribute kind, view kind) pairs of the open findings', 'sampling, not proof']
 PROBES = ['value_view', 'mask_view', 'indexed_values', 'indexed_mask', 'indexed_stat', 'indexed_hist', 'indexed_after_index_change',
           'indexed_after_parent_update', 'view_after_other_view_read', 'world_attr_view', 'categorical_view', 'linked_attr_view', 'derived_attr_view',
-          'boolmask_view', 'intarray_view', 'short_tuple_view']
+          'boolmask_view', 'intarray_view', 'short_tuple_view', 'member_state_compared']
 
 KINDS = ['ineq', 'range', 'mrange', 'roi', 'mask', 'slice', 'elem', 'catroi', 'cat', 'empty']
 VIEWKINDS = ['none', 'ellipsis', 'slices', 'short', 'mixed', 'intarrays', 'bool']
@@ -330,6 +330,12 @@ def execute(case, res):
             if d is None or g is None:
                 continue
             st = g.subset_state
+            if op[2] >= 4:
+                # a member of a composite / many-way-or state, evaluated on its own (it shares the memo with its parent's evaluation)
+                kids = [x for x in (getattr(st, 'state1', None), getattr(st, 'state2', None)) if x is not None] + list(getattr(st, 'states', []))
+                if kids:
+                    st = kids[op[2] % len(kids)]
+                    res.probe('member_state_compared')
             vk = view_kind(op[3], d.shape)
             classes = sorted(state_classes(st, set()))
             dep = state_dep(d, st)
@@ -379,7 +385,8 @@ def execute(case, res):
             if all(i is None for i in idx):
                 idx[-1] = 0
             x = IndexedData(d, tuple(idx))
-            x.register_to_hub(w.hub)
+            if op[1] % 2 == 0:
+                x.register_to_hub(w.hub)     # half of them live outside any hub
             indexed.append(x)
             del indexed[:-3]
         elif k == 'indexed_set':
